@@ -421,22 +421,22 @@ def token_contracts():
     cs.append(Contract(
         name="types.compute_hash", fun=ch_harness_fun, params=[("name", [KStr()]), ("mode", [KConst(None)] + MODES), ("g", [KConst(VERBOSE), KConst(COMPACT)])],
         ghost=("g",), setup=set_global_mode, pre=ch_pre, post={"token_means_its_hash": ch_post_token_means_its_hash},
-        native=native_ch_two, world=w2, search=search_ch_two, timeout=30.0,
+        native=native_ch_two, world=w2, search=search_ch_two, timeout=90.0,
         describe=desc(TYPES, "compute_hash", track="U (loop-free; two-run harness compute_hash(name, VERBOSE) / compute_hash(name, mode))")))
     cs.append(Contract(
         name="types.compute_hash{NUMERIC}", fun=lambda eng: X.vfun(__import__("ast").parse("def f(name):\n    return compute_hash(name, 2)\n").body[0], "harness:compute_hash_numeric"),
         params=[("name", [KStr()])], pre=chn_pre, post={"numeric_of_plain_name": chn_post}, native=native_ch(NUMERIC), world=w2,
-        search=search_ch(NUMERIC, chn_post), timeout=30.0, describe=desc(TYPES, "compute_hash", track="U (loop-free)")))
+        search=search_ch(NUMERIC, chn_post), timeout=90.0, describe=desc(TYPES, "compute_hash", track="U (loop-free)")))
     cs.append(Contract(
         name="types.compute_hash{VERBOSE}", fun=lambda eng: X.vfun(__import__("ast").parse("def f(name):\n    return compute_hash(name, 0)\n").body[0], "harness:compute_hash_verbose"),
         params=[("name", [KStr()])], pre=chn_pre, post={"verbose_of_plain_name": chv_post}, native=native_ch(VERBOSE), world=w2,
-        search=search_ch(VERBOSE, chv_post), timeout=30.0, describe=desc(TYPES, "compute_hash", track="U (loop-free)")))
+        search=search_ch(VERBOSE, chv_post), timeout=90.0, describe=desc(TYPES, "compute_hash", track="U (loop-free)")))
 
     w3 = dict(w)
     w3["compute_hash"] = callee_compute_hash_numeric()
     cs.append(Contract(
         name="utils._e", fun=lambda eng: real(UTILS, "_e"), params=[("value", [KFloat(), KIntFloat(), KStr()])],
-        pre=e_pre, post={"post": e_post}, native=native_e, world=w3, search=search_e, timeout=30.0,
+        pre=e_pre, post={"post": e_post}, native=native_e, world=w3, search=search_e, timeout=90.0,
         describe=desc(UTILS, "_e", track="U (loop-free)")))
 
     # compute_string: unbounded, with the invariant  val == pack(s[:k])
